@@ -114,7 +114,8 @@ def fingerprint(v, depth=0):
         ps = getattr(v, '__pane_set__', None)
         return (t_.__name__, id(v), fs, id(ps), tuple(sorted(ps)) if ps is not None else None)
     if t_.__module__ == 'numpy':
-        return (t_.__name__, id(v), getattr(v, 'shape', None), v.tobytes() if hasattr(v, 'tobytes') else repr(v))
+        return (t_.__name__, id(v), getattr(v, 'shape', None), str(getattr(v, 'dtype', None)), getattr(v, 'strides', None),
+                bool(getattr(getattr(v, 'flags', None), 'writeable', True)), v.tobytes() if hasattr(v, 'tobytes') else repr(v))
     if t_.__name__ == 'ValueOrList':
         return (t_.__name__, id(v), v._is_val, fingerprint(v._inner, depth + 1))
     return (t_.__name__, id(v), repr(v))
